@@ -34,7 +34,7 @@ func TestCheck(t *testing.T) {
 		Rule: "txn: rapid-generated transactional histories with frequent clean Close/Open cycles (1..many per case) and writes, deletes, expiry metadata, flushes, compactions and value-log rewrites in between; after every reopen all keys are read back, a forward scan and an all-versions scan are compared with the MVCC model (every key, every stored version, ExpiresAt), and the oracle's next commit timestamp must exceed every version stored before; plain: the same for a database used through Set/Del. Non-trivial = a reopen with >=2 commits and >=1 flushed SST before it; distinct by case content.",
 		Assumptions: []string{"transactional and plain data are kept in separate databases (the API forbids mixing)"},
 	}
-	pbt.Add(s, &pbt.Spec[txm.Case]{Name: "txn", Gen: func(t *rapid.T) txm.Case { return txm.Gen(t, txProfile) }, Run: txm.Run, Quick: 320, Thorough: 20000, Shards: 16})
-	pbt.Add(s, &pbt.Spec[plain.Case]{Name: "plain", Gen: func(t *rapid.T) plain.Case { return plain.Gen(t, plainProfile) }, Run: plain.Run, Quick: 200, Thorough: 10000, Shards: 16})
+	pbt.Add(s, &pbt.Spec[txm.Case]{Name: "txn", Gen: func(t *rapid.T) txm.Case { return txm.Gen(t, txProfile) }, Run: txm.Run, Quick: 200, Thorough: 20000, Shards: 16})
+	pbt.Add(s, &pbt.Spec[plain.Case]{Name: "plain", Gen: func(t *rapid.T) plain.Case { return plain.Gen(t, plainProfile) }, Run: plain.Run, Quick: 120, Thorough: 10000, Shards: 16})
 	s.Main(t)
 }
